@@ -57,6 +57,14 @@ CHECKS = {
    text="Pixel-exact differential against the rendering formula stated in the property, built from the encoder-level module matrix, for all 11 writers: every requested width in 0..natural+3 (and heights) x a set of margins enumerated, larger requests up to 8x and margins 0..20 rapid-generated; BitMatrix's image.Image view checked on every output.",
    note="Trusted: the 30-line formula implementation in checks/c14 (the property's own formula).",
    tech="exhaustive small-range enumeration + property-based testing against a formula oracle"),
+ "C15": dict(cat="exploration", ref="DESIGN.md §4 C15",
+   text="Every registered charset under every name and alias: single-byte repertoires exhaustively, multi-byte sets sampled, through the QR writer/reader with the ECI designator checked against the AIM assignment list typed in the check and the byte segment against x/text; registry laws over all values and names; every ECI number up to 1100 in all three designator forms (sampled to 999999) in hand-built streams; decode-side hints; unhinted UTF-8 adversarial for the guesser.",
+   note="Trusted: x/text encoders/decoders as the oracle for what is representable (not for gozxing's behaviour) and the AIM number table typed in checks/c15.",
+   tech="round-trip property testing + exhaustive registry / ECI-number enumeration against an independent table"),
+ "C19": dict(cat="exploration", ref="DESIGN.md §4 C19",
+   text="The transform is compared with an independent projective solve in 256-bit floats over rapid-generated convex quadrilateral pairs; sampled grids are compared cell by cell with the image pixel under the independently transformed cell centre; the nudge rules are enumerated on all four sides, both row ends and 11 distances, directly and through sampling with translated / sheared grids; all-black images detect any read outside the image.",
+   note="Trusted: the 8x8 Gaussian elimination in big.Float in checks/c19. Cells within 1e-6 of a pixel boundary are skipped; degenerate quadrilaterals are not generated.",
+   tech="property-based testing against an extended-precision reference + enumerated edge-rule cases"),
 }
 
 NOT_YET = {}
